@@ -18,7 +18,7 @@ import (
 
 func init() {
 	register(&Prop{ID: "C13", Gen: c13Gen, Oracle: c13Oracle,
-		Rule: "fork enumeration over (|A|, common prefix p, |B|, tile height, client position a, presented head b <,=,> a, tile source, cold/warm cache, long-lived / restarted / second client on the shared configuration, fresh client shown B first), plus stale-head replays on one log, plus an exhaustive small-scope sweep (tile height, a, b, p) of an equivocating server splicing the other tree's hashes into its tiles entry by entry (all tiles / only the widest version of each partial tile), plus lost install races (a long-lived client, three heads A@a1, A@a2, B@b in flight under tile-read-last / random / fixed schedules; report content checked per callback), plus several different forked heads shown to one long-lived client one after the other and at the same time (every security failure of a lookup that read its own response must have handed that head to the callback), plus histories of one long-lived client whose shared configuration is moved by another party (second client / direct write) to a head it cannot merge (fork head, head ahead of its server, head signed by an unknown key), a failed flush, then 2-4 FURTHER advances of its own head with faults switched on and off in between (no stored head is overwritten unless it was verified to be contained in the head written; also emitted as client.trace lines), plus the fork enumeration with every served head in the forward-compatible encoding (additional text lines after the hash line); non-trivial = both heads lie beyond the common prefix or the head moves; distinct by scenario line"})
+		Rule: "fork enumeration over (|A|, common prefix p, |B|, tile height, client position a, presented head b <,=,> a, tile source, cold/warm cache, long-lived / restarted / second client on the shared configuration, fresh client shown B first), plus stale-head replays on one log, plus an exhaustive small-scope sweep (tile height, a, b, p) of an equivocating server splicing the other tree's hashes into its tiles entry by entry (all tiles / only the widest version of each partial tile), plus lost install races (a long-lived client, three heads A@a1, A@a2, B@b in flight under tile-read-last / random / fixed schedules; report content checked per callback), plus several different forked heads shown to one long-lived client one after the other and at the same time (every security failure of a lookup that read its own response must have handed that head to the callback), plus histories of one long-lived client whose shared configuration is moved by another party (second client / direct write) to a head it cannot merge (fork head, head ahead of its server, head signed by an unknown key), a failed flush, then 2-4 FURTHER advances of its own head with faults switched on and off in between (no stored head is overwritten unless it was verified to be contained in the head written; also emitted as client.trace lines), plus the fork enumeration with every served head in the forward-compatible encoding (additional text lines after the hash line), plus the fork enumeration with signed heads of growing size (a few hundred bytes to tens of kilobytes; hundreds of kilobytes in the thorough tier) made of many additional text lines and/or 1-99 co-signatures of keys unknown to the client, for every head / only the forked head / only the client's own head (every security report must contain two complete, re-openable, mutually inconsistent signed notes byte for byte); non-trivial = both heads lie beyond the common prefix or the head moves; distinct by scenario line"})
 }
 
 // c13StrictAfterSecurity: see the report — after a fork was reported through SecurityError a long-lived client whose
@@ -334,6 +334,7 @@ func c13Judge(g *Gen, c c13Case) {
 	clReport(g, c13CheckSecurityPar(g, out), sc)
 	clReport(g, c13CheckSecurityFresh(g, out), sc)
 	clReport(g, c13CheckOverwrite(g, out), sc)
+	c13TagReportSizes(g, out)
 }
 
 // c13CheckSecurityPar: the clause "whenever the failure is reported as a security error the security callback received
@@ -950,6 +951,12 @@ func c13Oracle(g *Gen, n int) {
 	// the fork enumeration with every lookup response carrying a head in the forward-compatible encoding (additional text
 	// lines after the hash, util_c13headext.go)
 	for _, c := range c13HeadExtCases(g.Rand) {
+		c13Judge(g, c)
+	}
+	// the same enumeration with signed heads of growing SIZE — many additional text lines, many co-signatures of unknown
+	// keys — for all heads / only the forked head / only the client's own head (util_c13headext.go: c13LongHeadCases;
+	// last, so that the random stream of the classes above is unchanged)
+	for _, c := range c13LongHeadCases(g.Rand) {
 		c13Judge(g, c)
 	}
 }
